@@ -47,10 +47,43 @@ def _conv(spec, conv, v):
     raise FormatError("format type %r" % ty)
 
 
+def _flat(v, out):
+    from .absint import StrV
+    if isinstance(v, (str, StrV)):
+        out.append(v)
+    elif isinstance(v, (list, tuple)):
+        for x in v:
+            _flat(x, out)
+    elif isinstance(v, Sym) and v.op == "call" and v.args and isinstance(v.args[0], Sym) and v.args[0].op == "attr" \
+            and v.args[0].args[1] == "join" and v.args[0].args[0] == "" and len(v.args) == 2:
+        _flat(v.args[1], out)
+    elif isinstance(v, Sym) and v.op == "strop" and v.args[0] == "Add":
+        _flat(v.args[1], out)
+        _flat(v.args[2], out)
+    else:
+        out.append(v)
+
+
 def pieces(v):
-    """v: Sym('strformat', template, args) -> list of pieces; a plain str -> [('lit', v)]"""
+    """v: a string-building term (strformat / '+' / ''.join of such) -> list of pieces; a plain str -> [('lit', v)]"""
+    from .absint import StrV
     if isinstance(v, str):
         return _merge([("lit", v)])
+    if isinstance(v, (StrV, list, tuple)) or (isinstance(v, Sym) and v.op in ("strop", "call")):
+        items = []
+        _flat(v, items)
+        if len(items) == 1 and items[0] is v:
+            raise FormatError("not a formatting result: %s" % show(v)[:80])
+        out = []
+        for it_ in items:
+            if isinstance(it_, StrV):
+                if all(isinstance(c, int) for c in it_.chars):
+                    out.append(("lit", "".join(chr(c) for c in it_.chars)))
+                else:
+                    raise FormatError("symbolic characters in %s" % show(it_)[:60])
+            else:
+                out.extend(pieces(it_))
+        return _merge(out)
     if not (isinstance(v, Sym) and v.op == "strformat"):
         raise FormatError("not a formatting result: %s" % show(v)[:80])
     tmpl, args = v.args
